@@ -45,9 +45,30 @@ type Target struct {
 	Re    string
 	Idx   int
 	ReNot string // exclusion: constructs matching this are not targets
+	ValNot string // TStore: stores whose value rendering matches this are not targets
 }
 
 func (t Target) Except(re string) Target { t.ReNot = re; return t }
+
+// ExceptVal: a store of a value whose rendering matches re is not a target
+// ("the only thing stored there is ...").
+func (t Target) ExceptVal(re string) Target { t.ValNot = re; return t }
+
+// matchIns: a barrier / From pattern against an instruction. Plain patterns
+// are call renderings (head-anchored); "store:<re>" matches "<addr> = <value>"
+// of a store and "mapset:<re>" matches "<map>[<key>] = <value>" of a map update.
+func (e *e1Engine) matchIns(ins ssa.Instruction, re string) bool {
+	switch {
+	case strings.HasPrefix(re, "store:"):
+		st, ok := ins.(*ssa.Store)
+		return ok && e.re(re[len("store:"):]).MatchString(desc(st.Addr, maxDepth)+" = "+desc(st.Val, maxDepth))
+	case strings.HasPrefix(re, "mapset:"):
+		mu, ok := ins.(*ssa.MapUpdate)
+		return ok && e.re(re[len("mapset:"):]).MatchString(desc(mu.Map, maxDepth)+"["+desc(mu.Key, maxDepth)+"] = "+desc(mu.Value, maxDepth))
+	}
+	_, m := e.callMatches(ins, re)
+	return m
+}
 
 func Success() Target            { return Target{Kind: TSuccess} }
 func CallTo(re string) Target    { return Target{Kind: TCall, Re: re} }
@@ -575,7 +596,22 @@ func (e *e1Engine) isTarget(ins ssa.Instruction, t Target, lits []Lit) bool {
 			if t.ReNot != "" && e.re(t.ReNot).MatchString(d) {
 				return false
 			}
-			return e.re(t.Re).MatchString(d)
+			if !e.re(t.Re).MatchString(d) {
+				return false
+			}
+			if t.ValNot != "" {
+				if k, isK := s.Val.(*ssa.Const); isK && k.Value != nil && e.re(t.ValNot).MatchString(k.Value.ExactString()) {
+					return false
+				}
+				// a boolean decided by the valuation counts as that constant
+				if known, val := e.boolUnder(s.Val, lits, nil); known && e.re(t.ValNot).MatchString(map[bool]string{true: "true", false: "false"}[val]) {
+					return false
+				}
+				if e.re(t.ValNot).MatchString(desc(s.Val, maxDepth)) {
+					return false
+				}
+			}
+			return true
 		}
 		if m, ok := ins.(*ssa.MapUpdate); ok {
 			return e.re(t.Re).MatchString(desc(m.Map, maxDepth) + "[" + desc(m.Key, 3) + "]")
@@ -638,7 +674,7 @@ func (e *e1Engine) eval(fn *ssa.Function, row *Row) e1Result {
 		cut := false
 		for i, ins := range b.Instrs {
 			for _, bs := range row.Barrier {
-				if _, ok := e.callMatches(ins, bs); ok {
+				if e.matchIns(ins, bs) {
 					cut = true
 				}
 			}
@@ -810,7 +846,7 @@ func (e *e1Engine) eval(fn *ssa.Function, row *Row) e1Result {
 				lim = c
 			}
 			for i, ins := range b.Instrs[:lim] {
-				if _, ok := e.callMatches(ins, row.From); ok {
+				if e.matchIns(ins, row.From) {
 					if cur, seenB := after[b]; !seenB || i+1 < cur {
 						after[b] = i + 1
 					}
